@@ -146,7 +146,7 @@ structure RlpInv (s : FSA V L) (root : V) (H : FSA V L) (marked : Dict V Bool) (
     (queue : List V) : Prop where
   wf : H.WF
   verts : ∀ v, v ∈ H.out.keys ↔ v ∈ s.out.keys
-  starts : H.starts = []
+  starts : H.starts = [root]
   sound : ∀ v l w, H.step v l = some w →
     s.step v l = some w ∧ ∃ d, dist.get? v = some d ∧ dist.get? w = some (d + 1)
   mark : ∀ v, marked.get? v = some true ↔ ∃ d, dist.get? v = some d
@@ -191,37 +191,28 @@ theorem labelled_complete {row : Dict V (List L)} {v : V} {ws : List V} {es : Li
         · obtain ⟨ls', h1, h2⟩ := ih hr w hw
           exact ⟨ls', h1, by simp [h2]⟩
 
-/-- one iteration of the breadth-first loop: what is computed, and that the invariant carries over -/
-theorem rlp_iter {s : FSA V L} (hs : s.WF) (root : V) (ties : Bool) (fuel : Nat)
+/-- the facts about one iteration of the breadth-first loop, given that its local computations
+succeed (no assumption on the rest of the run) -/
+theorem rlp_step {s : FSA V L} (hs : s.WF) (root : V) (ties : Bool)
     (H : FSA V L) (marked : Dict V Bool) (dist : Dict V Nat) (v : V) (q : List V)
-    (H' : FSA V L) (dist' : Dict V Nat) (inv : RlpInv s root H marked dist (v :: q))
-    (h : rlpLoop s ties (fuel + 1) H marked dist (v :: q) = .ok (H', dist')) :
-    ∃ (row : Dict V (List L)) (toVisit short : List V) (dv : Nat) (H1 : FSA V L)
-      (marked1 : Dict V Bool) (dist1 : Dict V Nat),
-      s.out.get? v = some row ∧ dist.get? v = some dv ∧
+    (inv : RlpInv s root H marked dist (v :: q))
+    {row : Dict V (List L)} {toVisit short : List V} {dv : Nat} {es : List (V × V × List L)}
+    {marked1 : Dict V Bool} {dist1 : Dict V Nat}
+    (hrow : s.out.get? v = some row) (htv : unmarked marked row.keys = .ok toVisit)
+    (hdv : dist.get? v = some dv)
+    (hM : toVisit.foldl (fun m w => Dict.set m w true) marked = marked1)
+    (hD : toVisit.foldl (fun d w => Dict.set d w (dv + 1)) dist = dist1)
+    (hshort : (if ties = true then atLevel dist1 (dv + 1) row.keys else pure toVisit) = Except.ok short)
+    (hes : labelled row v short = .ok es) :
+    ∃ H1, H.addEdgesL es = .ok H1 ∧
       (∀ w, w ∈ toVisit ↔ w ∈ row.keys ∧ marked.get? w = some false) ∧
-      (∀ w ∈ row.keys, ∃ b, marked.get? w = some b) ∧
       (∀ x, marked1.get? x = if x ∈ toVisit then some true else marked.get? x) ∧
       (∀ x, dist1.get? x = if x ∈ toVisit then some (dv + 1) else dist.get? x) ∧
       (∀ w, w ∈ short ↔
         if ties = true then (w ∈ row.keys ∧ dist1.get? w = some (dv + 1)) else w ∈ toVisit) ∧
       (∀ a l b, H1.step a l = some b ↔
         H.step a l = some b ∨ (a = v ∧ b ∈ short ∧ ∃ ls, row.get? b = some ls ∧ l ∈ ls)) ∧
-      RlpInv s root H1 marked1 dist1 (q ++ toVisit) ∧
-      rlpLoop s ties fuel H1 marked1 dist1 (q ++ toVisit) = .ok (H', dist') := by
-  simp only [rlpLoop, Dict.get] at h
-  cases hrow : s.out.get? v with
-  | none => simp [hrow, bind, Except.bind] at h
-  | some row =>
-  cases htv : unmarked marked row.keys with
-  | error e => simp [hrow, htv, bind, Except.bind] at h
-  | ok toVisit =>
-  cases hdv : dist.get? v with
-  | none => simp [hrow, htv, hdv, bind, Except.bind] at h
-  | some dv =>
-  simp only [hrow, htv, hdv, bind, Except.bind] at h
-  generalize hM : toVisit.foldl (fun m w => Dict.set m w true) marked = marked1 at h
-  generalize hD : toVisit.foldl (fun d w => Dict.set d w (dv + 1)) dist = dist1 at h
+      RlpInv s root H1 marked1 dist1 (q ++ toVisit) := by
   have hM' : ∀ x, marked1.get? x = if x ∈ toVisit then some true else marked.get? x := by
     intro x; rw [← hM]; exact get?_foldl_setConst toVisit true marked x
   have hD' : ∀ x, dist1.get? x = if x ∈ toVisit then some (dv + 1) else dist.get? x := by
@@ -236,20 +227,6 @@ theorem rlp_iter {s : FSA V L} (hs : s.WF) (root : V) (ties : Bool) (fuel : Nat)
       have h2 := (inv.mark x).2 ⟨d, hx⟩
       rw [this] at h2; cases h2
     simp [this, hx]
-  obtain ⟨short, hshort, h⟩ : ∃ short,
-      (if ties = true then atLevel dist1 (dv + 1) row.keys else pure toVisit) = Except.ok short ∧
-      Except.bind (labelled row v short) (fun es => Except.bind (H.addEdgesL es)
-        (fun H1 => s.rlpLoop ties fuel H1 marked1 dist1 (q ++ toVisit))) = Except.ok (H', dist') := by
-    cases ties
-    · simp only [Bool.false_eq_true, if_false, pure, Except.pure] at h ⊢
-      exact ⟨toVisit, rfl, h⟩
-    · simp only [if_true] at h ⊢
-      cases hat : atLevel dist1 (dv + 1) row.keys with
-      | error e => simp [hat] at h
-      | ok r => simp only [hat] at h; exact ⟨r, rfl, h⟩
-  cases hes : labelled row v short with
-  | error e => simp [hes, Except.bind] at h
-  | ok es =>
   have hes' := labelled_spec hes
   have hshort' : ∀ w ∈ short, w ∈ row.keys ∧ dist1.get? w = some (dv + 1) := by
     intro w hw
@@ -270,7 +247,6 @@ theorem rlp_iter {s : FSA V L} (hs : s.WF) (root : V) (ties : Bool) (fuel : Nat)
       (fun v l w w' h1 h2 => by rw [h1] at h2; exact Option.some.inj h2) es H.abs
       (fun v l w hw => (inv.sound v l w hw).1) hnew
   obtain ⟨H1, eH1, wH1, stH1, aH1⟩ := addEdgesL_spec inv.wf true es hok
-  simp only [hes, eH1, Except.bind] at h
   have hedge : ∀ a l b, H1.step a l = some b ↔
       H.step a l = some b ∨ ∃ e ∈ es, e.1 = a ∧ e.2.1 = b ∧ l ∈ e.2.2 := by
     intro a l b
@@ -317,8 +293,7 @@ theorem rlp_iter {s : FSA V L} (hs : s.WF) (root : V) (ties : Bool) (fuel : Nat)
       · obtain ⟨ls', h1, h2⟩ := labelled_complete hes b hb
         rw [hls] at h1; cases h1
         exact Or.inr ⟨(a, b, ls), h2, rfl, rfl, hl⟩
-  refine ⟨row, toVisit, short, dv, H1, marked1, dist1, rfl, rfl, htv', unmarked_total htv, hM', hD',
-    hshortiff, hedge2, ?_, h⟩
+  refine ⟨H1, eH1, htv', hM', hD', hshortiff, hedge2, ?_⟩
   refine ⟨wH1, hvert, by rw [stH1, inv.starts], ?_, ?_, ?_, hgrow root 0 inv.root⟩
   · intro a l b hab
     rcases (hedge a l b).1 hab with h1 | ⟨e, he, rfl, rfl, hl⟩
@@ -337,6 +312,78 @@ theorem rlp_iter {s : FSA V L} (hs : s.WF) (root : V) (ties : Bool) (fuel : Nat)
     · have := inv.queued x (by simp [h1])
       by_cases hx' : x ∈ toVisit <;> simp [hx', this]
     · simp [h1]
+
+/-- unfolding one iteration of the loop whose local computations succeed -/
+theorem rlpLoop_succ_eq {s : FSA V L} (ties : Bool) (fuel : Nat)
+    (H : FSA V L) (marked : Dict V Bool) (dist : Dict V Nat) (v : V) (q : List V)
+    {row : Dict V (List L)} {toVisit short : List V} {dv : Nat} {es : List (V × V × List L)} {H1 : FSA V L}
+    (hrow : s.out.get? v = some row) (htv : unmarked marked row.keys = .ok toVisit)
+    (hdv : dist.get? v = some dv)
+    (hshort : (if ties = true then atLevel (toVisit.foldl (fun d w => Dict.set d w (dv + 1)) dist) (dv + 1) row.keys
+      else pure toVisit) = Except.ok short)
+    (hes : labelled row v short = .ok es) (hH1 : H.addEdgesL es = .ok H1) :
+    rlpLoop s ties (fuel + 1) H marked dist (v :: q) =
+      rlpLoop s ties fuel H1 (toVisit.foldl (fun m w => Dict.set m w true) marked)
+        (toVisit.foldl (fun d w => Dict.set d w (dv + 1)) dist) (q ++ toVisit) := by
+  simp only [rlpLoop, Dict.get, hrow, htv, hdv, bind, Except.bind]
+  cases ties
+  · simp only [Bool.false_eq_true, if_false, pure, Except.pure, Except.ok.injEq] at hshort ⊢
+    subst hshort
+    simp only [hes, hH1]
+  · simp only [if_true] at hshort ⊢
+    simp only [hshort, hes, hH1]
+
+/-- one iteration of the breadth-first loop: what is computed, and that the invariant carries over -/
+theorem rlp_iter {s : FSA V L} (hs : s.WF) (root : V) (ties : Bool) (fuel : Nat)
+    (H : FSA V L) (marked : Dict V Bool) (dist : Dict V Nat) (v : V) (q : List V)
+    (H' : FSA V L) (dist' : Dict V Nat) (inv : RlpInv s root H marked dist (v :: q))
+    (h : rlpLoop s ties (fuel + 1) H marked dist (v :: q) = .ok (H', dist')) :
+    ∃ (row : Dict V (List L)) (toVisit short : List V) (dv : Nat) (H1 : FSA V L)
+      (marked1 : Dict V Bool) (dist1 : Dict V Nat),
+      s.out.get? v = some row ∧ dist.get? v = some dv ∧
+      (∀ w, w ∈ toVisit ↔ w ∈ row.keys ∧ marked.get? w = some false) ∧
+      (∀ w ∈ row.keys, ∃ b, marked.get? w = some b) ∧
+      (∀ x, marked1.get? x = if x ∈ toVisit then some true else marked.get? x) ∧
+      (∀ x, dist1.get? x = if x ∈ toVisit then some (dv + 1) else dist.get? x) ∧
+      (∀ w, w ∈ short ↔
+        if ties = true then (w ∈ row.keys ∧ dist1.get? w = some (dv + 1)) else w ∈ toVisit) ∧
+      (∀ a l b, H1.step a l = some b ↔
+        H.step a l = some b ∨ (a = v ∧ b ∈ short ∧ ∃ ls, row.get? b = some ls ∧ l ∈ ls)) ∧
+      RlpInv s root H1 marked1 dist1 (q ++ toVisit) ∧
+      rlpLoop s ties fuel H1 marked1 dist1 (q ++ toVisit) = .ok (H', dist') := by
+  have h0 := h
+  simp only [rlpLoop, Dict.get] at h
+  cases hrow : s.out.get? v with
+  | none => simp [hrow, bind, Except.bind] at h
+  | some row =>
+  cases htv : unmarked marked row.keys with
+  | error e => simp [hrow, htv, bind, Except.bind] at h
+  | ok toVisit =>
+  cases hdv : dist.get? v with
+  | none => simp [hrow, htv, hdv, bind, Except.bind] at h
+  | some dv =>
+  simp only [hrow, htv, hdv, bind, Except.bind] at h
+  obtain ⟨short, hshort, h⟩ : ∃ short,
+      (if ties = true then atLevel (toVisit.foldl (fun d w => Dict.set d w (dv + 1)) dist) (dv + 1) row.keys
+        else pure toVisit) = Except.ok short ∧
+      Except.bind (labelled row v short) (fun es => Except.bind (H.addEdgesL es)
+        (fun H1 => s.rlpLoop ties fuel H1 (toVisit.foldl (fun m w => Dict.set m w true) marked)
+          (toVisit.foldl (fun d w => Dict.set d w (dv + 1)) dist) (q ++ toVisit))) = Except.ok (H', dist') := by
+    cases ties
+    · simp only [Bool.false_eq_true, if_false, pure, Except.pure] at h ⊢
+      exact ⟨toVisit, rfl, h⟩
+    · simp only [if_true] at h ⊢
+      cases hat : atLevel (toVisit.foldl (fun d w => Dict.set d w (dv + 1)) dist) (dv + 1) row.keys with
+      | error e => simp [hat] at h
+      | ok r => simp only [hat] at h; exact ⟨r, rfl, h⟩
+  cases hes : labelled row v short with
+  | error e => simp [hes, Except.bind] at h
+  | ok es =>
+  obtain ⟨H1, eH1, f1, f2, f3, f4, f5, inv1⟩ :=
+    rlp_step hs root ties H marked dist v q inv hrow htv hdv rfl rfl hshort hes
+  refine ⟨row, toVisit, short, dv, H1, _, _, rfl, rfl, f1, unmarked_total htv, f2, f3, f4, f5, inv1, ?_⟩
+  rw [← rlpLoop_succ_eq ties fuel H marked dist v q hrow htv hdv hshort hes eH1]
+  exact h0
 
 theorem rlpLoop_sound {s : FSA V L} (hs : s.WF) (root : V) (ties : Bool) (fuel : Nat) :
     ∀ (H : FSA V L) (marked : Dict V Bool) (dist : Dict V Nat) (queue : List V)
@@ -379,7 +426,7 @@ theorem removeLongPaths_unfold {s : FSA V L} (root : Option V) (ties : Bool)
       (∀ x, marked0.get? x = some true ↔ x = r) ∧ (∀ v l w, H0.step v l ≠ some w) := by
   simp only [removeLongPaths] at h
   obtain ⟨r, hr, h⟩ : ∃ r, (root = some r ∨ (root = none ∧ s.starts.head? = some r)) ∧
-      rlpLoop s ties (s.out.length + 2) ((FSA.empty ([] : List V) : FSA V L).addVertices s.vertices)
+      rlpLoop s ties (s.out.length + 2) ((FSA.empty [r] : FSA V L).addVertices s.vertices)
         (Dict.set (s.vertices.map fun v => (v, false)) r true) [(r, 0)] [r] = .ok (H, dist) := by
     cases root with
     | some r => exact ⟨r, Or.inl rfl, by simpa [bind, Except.bind, pure, Except.pure] using h⟩
@@ -389,14 +436,14 @@ theorem removeLongPaths_unfold {s : FSA V L} (root : Option V) (ties : Bool)
       | nil => simp [hst, bind, Except.bind] at h
       | cons r rest =>
         exact ⟨r, Or.inr ⟨rfl, by simp⟩, by simpa [hst, bind, Except.bind, pure, Except.pure] using h⟩
-  have hw0 : ((FSA.empty ([] : List V) : FSA V L).addVertices s.vertices).WF :=
-    wf_addVertices (wf_emptyFSA []) _
-  have habs0 := abs_addVertices (wf_emptyFSA ([] : List V) (L := L)) s.vertices
-  have hnoedge : ∀ v l w, ((FSA.empty ([] : List V) : FSA V L).addVertices s.vertices).step v l ≠ some w := by
+  have hw0 : ((FSA.empty [r] : FSA V L).addVertices s.vertices).WF :=
+    wf_addVertices (wf_emptyFSA [r]) _
+  have habs0 := abs_addVertices (wf_emptyFSA [r] (L := L)) s.vertices
+  have hnoedge : ∀ v l w, ((FSA.empty [r] : FSA V L).addVertices s.vertices).step v l ≠ some w := by
     intro v l w hst
-    have : ((FSA.empty ([] : List V) : FSA V L).addVertices s.vertices).abs.edges v l w := hst
+    have : ((FSA.empty [r] : FSA V L).addVertices s.vertices).abs.edges v l w := hst
     rw [habs0] at this
-    have : (FSA.empty ([] : List V) : FSA V L).step v l = some w := this
+    have : (FSA.empty [r] : FSA V L).step v l = some w := this
     simp [step_def, FSA.empty, fromGraphDict, hiddenVertices] at this
   have hmark0 : ∀ x, (Dict.set (s.vertices.map fun v => (v, false)) r true).get? x = some true ↔ x = r := by
     intro v
@@ -412,7 +459,7 @@ theorem removeLongPaths_unfold {s : FSA V L} (root : Option V) (ties : Bool)
   refine ⟨r, _, _, hr, h, ?_, hmark0, hnoedge⟩
   refine ⟨hw0, ?_, by rw [starts_addVertices]; rfl, ?_, ?_, ?_, by simp [get?_cons]⟩
   · intro v; rw [mem_keys_addVertices]
-    have : v ∉ (FSA.empty ([] : List V) : FSA V L).out.keys := by intro h; cases h
+    have : v ∉ (FSA.empty [r] : FSA V L).out.keys := by intro h; cases h
     simp [this, vertices]
   · intro v l w hst; exact absurd hst (hnoedge v l w)
   · intro v
@@ -430,12 +477,12 @@ same vertex set, with no start vertices, all of whose edges are edges of the ori
 leading from a breadth-first level to the next one; the root is at level 0. -/
 theorem removeLongPaths_sound {s : FSA V L} (hs : s.WF) (root : Option V) (ties : Bool)
     {H : FSA V L} {dist : Dict V Nat} (h : s.removeLongPaths root ties = .ok (H, dist)) :
-    H.WF ∧ H.starts = [] ∧ (∀ v, v ∈ H.vertices ↔ v ∈ s.vertices) ∧
-    (∃ r, (root = some r ∨ (root = none ∧ s.starts.head? = some r)) ∧ dist.get? r = some 0) ∧
+    H.WF ∧ (∀ v, v ∈ H.vertices ↔ v ∈ s.vertices) ∧
+    (∃ r, (root = some r ∨ (root = none ∧ s.starts.head? = some r)) ∧ H.starts = [r] ∧ dist.get? r = some 0) ∧
     ∀ v l w, H.step v l = some w →
       s.step v l = some w ∧ ∃ d, dist.get? v = some d ∧ dist.get? w = some (d + 1) := by
   obtain ⟨r, H0, marked0, hr, hloop, inv0, -, -⟩ := removeLongPaths_unfold root ties h
   obtain ⟨marked', inv⟩ := rlpLoop_sound hs r ties _ _ _ _ _ H dist inv0 hloop
-  exact ⟨inv.wf, inv.starts, inv.verts, ⟨r, hr, inv.root⟩, inv.sound⟩
+  exact ⟨inv.wf, inv.verts, ⟨r, hr, inv.starts, inv.root⟩, inv.sound⟩
 
 end GT.FSA
